@@ -1047,7 +1047,7 @@ func (h *H) ccittWide() {
 	}
 }
 
-func (h *H) ccittCase(f pdf.FilterCCITTFax, data []byte, cols, rows int) {
+func (h *H) ccittCase(f pdf.FilterCCITTFax, data []byte, cols, rows int) (encoded bool) {
 	e := h.e
 	class := ccittClass(f)
 	v := pdf.V1_7
@@ -1066,7 +1066,18 @@ func (h *H) ccittCase(f pdf.FilterCCITTFax, data []byte, cols, rows int) {
 		}
 	} else if isRejected(err) {
 		e.Count(false, "", "rejected:ccitt")
-		return
+		return false
+	} else if rows > ccittRowLimit(f, cols) && strings.Contains(err.Error(), "too many rows") {
+		// more rows than Decode would return: the encoder has to refuse them
+		e.Count(true, fmt.Sprintf("refused %#v %d", f, rows), "ccitt-rows:refused")
+		return false
+	}
+	if err == nil && rows > ccittRowLimit(f, cols) {
+		h.fail(fmt.Sprintf("ccitt-rows-K%d-accepted-beyond-limit", sgn(f.K)),
+			fmt.Sprintf("CCITTFax K=%d Columns=%d Rows=%d: Encode accepted %d rows, Decode returns at most %d (got %d bytes for %d)", f.K, cols, f.Rows, rows, ccittRowLimit(f, cols), len(dec), len(data)),
+			map[string]any{"filter": fmt.Sprintf("%#v", f), "cols": cols, "rows": rows})
+		e.Count(true, fmt.Sprintf("beyond %#v %d", f, rows), "ccitt-rows:accepted-beyond-limit")
+		return true
 	}
 	ok := err == nil && bytes.Equal(dec, data)
 	label := fmt.Sprintf("K=%d EndOfLine=%v EncodedByteAlign=%v EndOfBlock=%v Rows=%d Columns=%d BlackIs1=%v", f.K, f.EndOfLine, f.EncodedByteAlign, !f.IgnoreEndOfBlock, f.Rows, cols, f.BlackIs1)
@@ -1076,26 +1087,76 @@ func (h *H) ccittCase(f pdf.FilterCCITTFax, data []byte, cols, rows int) {
 			map[string]any{"filter": fmt.Sprintf("%#v", f), "cols": cols, "rows": rows, "data": common.Hex(data)})
 	}
 	// the Group 4 model paints rows in quadratic time: fewer wide images there
-	if f.K == 0 && (cols <= 300 || cols <= 10000 && e.Rand.IntN(4) == 0) ||
+	if len(data) > 20000 {
+		// row-limit images: the model answers the accept/refuse question only
+	} else if f.K == 0 && (cols <= 300 || cols <= 10000 && e.Rand.IntN(4) == 0) ||
 		f.K < 0 && (cols <= 300 || cols <= 3000 && e.Rand.IntN(12) == 0 || cols <= 10000 && e.Rand.IntN(40) == 0) {
 		h.g3ModelLines(f, data, enc, dec, err, cols, class)
 	}
 	e.Count(true, label+common.Hex(data), fmt.Sprintf("%s:%s", class, map[bool]string{true: "ok", false: "fail"}[ok]))
+	return err == nil || len(enc) > 0
 }
 
 // g3Spec names the parameters of the Coq model of Group 3 one-dimensional coding (K = 0); the row
 // limit is the one FilterCCITTFax.Decode hands to the reader.
 func g3Spec(f pdf.FilterCCITTFax, cols int) string {
-	geoMax := max(1, min(1<<16, (128<<20)/cols))
-	maxRows := geoMax
-	if f.Rows > 0 && f.Rows < geoMax {
-		maxRows = f.Rows
-	}
+	// the row limit is derived from /Columns and /Rows by the model itself (CCITTParams.ccitt_max_rows)
 	if f.K < 0 {
 		// Group 4: EndOfLine plays no part
-		return fmt.Sprintf("g4:%d:%s:%s:%s:%d", cols, b01(f.EncodedByteAlign), b01(f.BlackIs1), b01(f.IgnoreEndOfBlock), maxRows)
+		return fmt.Sprintf("g4:%d:%s:%s:%s:%d", cols, b01(f.EncodedByteAlign), b01(f.BlackIs1), b01(f.IgnoreEndOfBlock), f.Rows)
 	}
-	return fmt.Sprintf("g3:%d:%s:%s:%s:%s:%d", cols, b01(f.EndOfLine), b01(f.EncodedByteAlign), b01(f.BlackIs1), b01(f.IgnoreEndOfBlock), maxRows)
+	return fmt.Sprintf("g3:%d:%s:%s:%s:%s:%d", cols, b01(f.EndOfLine), b01(f.EncodedByteAlign), b01(f.BlackIs1), b01(f.IgnoreEndOfBlock), f.Rows)
+}
+
+// ccittRowLimit: FilterCCITTFax.toParams - what Encode accepts and Decode returns at most
+func ccittRowLimit(f pdf.FilterCCITTFax, cols int) int {
+	geoMax := max(1, min(1<<16, (128<<20)/cols))
+	if f.Rows > 0 && f.Rows < geoMax {
+		return f.Rows
+	}
+	return geoMax
+}
+
+// ccittRows: the number of rows at the limit, one below and one above, for narrow and wide images,
+// without /Rows and with /Rows below and above the geometric bound.  Beyond the limit the encoder has to
+// refuse ("too many rows"); up to it the round trip is exact.
+func (h *H) ccittRows() {
+	e := h.e
+	geos := []int{8, 1 << 20}
+	if e.Thorough {
+		geos = append(geos, 16, 4096, 65536)
+	}
+	n := 0
+	for _, cols := range geos {
+		bound := max(1, min(1<<16, (128<<20)/cols))
+		for _, rowsParam := range []int{0, bound - 3, bound + 5} {
+			limit := bound
+			if rowsParam > 0 && rowsParam < bound {
+				limit = rowsParam
+			}
+			for _, nrows := range []int{limit - 1, limit, limit + 1} {
+				K := []int{0, -1, 2}[n%3]
+				n++
+				if cols >= 4096 && !e.Thorough && (nrows != limit+1 && nrows != limit || rowsParam != 0) {
+					continue // 128 Mpixel images: two of them in the quick tier
+				}
+				f := pdf.FilterCCITTFax{K: K, Columns: cols, Rows: rowsParam, EndOfLine: n%2 == 0, BlackIs1: n%4 < 2}
+				bpr := (cols + 7) / 8
+				data := make([]byte, bpr*nrows)
+				for i := 0; i < len(data); i += 1 + i%7 {
+					data[i] = byte(0xf0 >> (i % 5))
+				}
+				accepted := h.ccittCase(f, data, cols, nrows)
+				id := h.id("r")
+				e.Line("cases.txt", "%s R %d %d %d", id, cols, rowsParam, nrows)
+				if accepted {
+					e.Line("impl.obs", "%s accept", id)
+				} else {
+					e.Line("impl.obs", "%s refuse", id)
+				}
+			}
+		}
+	}
 }
 
 func (h *H) g3ModelLines(f pdf.FilterCCITTFax, data, enc, dec []byte, err error, cols int, class string) {
@@ -1397,6 +1458,7 @@ func main() {
 	h.chains()
 	h.ccitt()
 	h.ccittWide()
+	h.ccittRows()
 	e.Finish("a case is non-trivial when it carries data (codecs, predictors, chains, CCITT images), a parameter set validation accepts, or a non-empty dictionary; distinct by content",
 		map[string]any{})
 }
